@@ -20,6 +20,9 @@ PROPS = {}
 def prop(pid, modules, level="proof", **kw):
     d = {"modules": modules, "level": level, "trusted_base": list(TB_COMMON), "assumptions": list(ASSUME_COMMON)}
     d.update(kw)
+    if any(m.startswith("TaRs.Round.") for m in modules):
+        d["trusted_base"].append("Round/Model.lean: the standard model of floating-point arithmetic (every + - * / and decimal literal is the exact result rounded with |fl x - x| <= u|x|, u = 2^-53) is ASSUMED to describe f64 in the run: true for IEEE-754 round-to-nearest while no result overflows or underflows; usize->f64 exact (periods < 2^53). Not checked.")
+        d["assumptions"].append("layer R theorems (Round/*) bound the rounding error of the generated code under that model only; the overflow/underflow range and the indicators without a Round module are covered by the sampled oracle")
     PROPS[pid] = d
 
 
